@@ -536,6 +536,18 @@ class KTHierarchyPropagator:
         """Propagates the Kubo-Tanimura Hierarchy including the RDO
         
         """
+        # the equations of motion are integrated in internal units
+        with energy_units("int"):
+            return self._propagate_int(rhoi, L=L, 
+                                       report_hierarchy=report_hierarchy,
+                                       free_hierarchy=free_hierarchy)
+            
+            
+    def _propagate_int(self, rhoi, L=4, report_hierarchy=False,
+                                   free_hierarchy=False):
+        """Propagation with internal units set as current
+        
+        """
         rhot = DensityMatrixEvolution(timeaxis=self.timeaxis, rhoi=rhoi)
         
         # every propagation starts from empty auxiliary density operators;
